@@ -356,8 +356,13 @@ class NetworkService(ModelElement):
         else:
             ltype = LinkType.Patch
 
-        peer_link = Link(name=peer_if.name + '-link', topo=self.topo, etype=ElementType.NEW,
-                         interfaces=[interface, peer_if], ltype=ltype)
+        try:
+            peer_link = Link(name=peer_if.name + '-link', topo=self.topo, etype=ElementType.NEW,
+                             interfaces=[interface, peer_if], ltype=ltype)
+        except Exception:
+            # don't leave the service port behind without a peer
+            self.topo.graph_model.remove_cp_and_links(node_id=peer_if.node_id)
+            raise
         self._interfaces.append(peer_if)
 
     def disconnect_interface(self, interface: Interface) -> None:
